@@ -207,7 +207,7 @@ func checkGen(rec *stats.Recorder, c genCase) (msg string, known string) {
 	placeCustoms := func(out string) {
 		for _, n := range s.Types {
 			if n.Kind == "typeref" && n.Custom {
-				dir := filepath.Join(out, filepath.FromSlash(strings.ReplaceAll(n.Namespace, ".", "/")))
+				dir := filepath.Join(out, filepath.FromSlash(schema.NamespaceDir(n.Namespace)))
 				must(os.MkdirAll(dir, 0o755))
 				must(os.WriteFile(filepath.Join(dir, n.Name+".go"), []byte(schema.CustomTyperefSource(s.PackageRoot, n, fnv1aImport)), 0o644))
 				customs++
